@@ -1,6 +1,7 @@
 """C10 -- decryption: either password opens the document to exactly the original content."""
 import io
 import logging
+import os
 import random
 
 from hypothesis import strategies as st
@@ -27,9 +28,12 @@ RULE = ("Hypothesis draws a standard-security-handler configuration -- (V1,R2,40
         "of every uncompressed object; the same assembly without handler gives the original.  Oracle: with the user "
         "and with the owner password (and, R6, the SASLprep-normalised spelling) PDFDocument opens, every getobj(n) "
         "equals the plaintext value (strings, stream dictionaries, get_data()), /ID and the /Encrypt strings are "
-        "untouched, is_printable/modifiable/extractable = bits 3/4/5, extract_text = that of the original; near-miss "
-        "passwords (prefix, case, appended byte, appended padding byte, empty, not encodable) that differ from both "
-        "passwords after the revision's own preparation raise PDFPasswordIncorrect.  Non-trivial = AES with a "
+        "untouched (also when read through getobj of an indirect /Encrypt or of the cross-reference stream object, "
+        "which is never encrypted), is_printable/modifiable/extractable = bits 3/4/5, extract_text = that of the "
+        "original; near-miss passwords (prefix, case, appended byte, appended padding bytes, empty, another drawn "
+        "password) that differ from both passwords after the revision's own preparation, and one password the "
+        "revision's encoding cannot represent (non-Latin-1 for R<=4, SASLprep-prohibited for R5/R6, offending character "
+        "first), raise PDFPasswordIncorrect.  Non-trivial = AES with a "
         "string/stream whose length is a multiple of 16, or an object stream, or EncryptMetadata false, or owner-password "
         "authentication with a distinct owner password, or a non-ASCII password.  Distinct by case bytes.")
 ASSUMPTIONS = [
@@ -45,7 +49,7 @@ ASSUMPTIONS = [
 
 
 def selfcheck():
-    C.selfcheck()
+    C.selfcheck(os.path.join(os.environ.get("VERIF_REPO", "/repo"), "samples", "encryption"))
 
 
 # --------------------------------------------------------------------------
@@ -206,7 +210,7 @@ U_PLAIN = (list("abcXYZ019 _-!") + list("\u00e9\u00fc\u00d1\u00df\u00a3") + list
 N_ASCII_ATOMS = 13
 # compatibility forms (NFKC changes them), decomposed sequences, non-ASCII spaces (-> SPACE), mapped-to-nothing
 U_COMPAT = ["\ufb01", "\uff21", "\u00aa", "\u2168", "\u00b5", "\u212b", "e\u0301", "\u1112\u1161\u11ab", "\U0001d400",
-            "\u00a0", "\u2003", "\u3000", "\u00ad", "\u200d", "\ufe00", "\u00bd"]
+            "\u00a0", "\u2003", "\u3000", "\u1680", "\u00ad", "\u200d", "\ufe00", "\u00bd"]
 U_RTL = list("\u05d0\u05d1\u05d2\u05d3\u0627\u0628\u062c")
 SPECIAL_LEN = [0, 1, 15, 16, 17, 31, 32, 33, 48, 64]
 
@@ -342,7 +346,7 @@ def cases(draw, forced=None):
             classes.append("pw>127utf8")
         if R >= 5 and any(C.stringprep.in_table_d1(ch) for ch in p):
             classes.append("pw-rtl")
-    opens = [["user", user], ["owner", owner_eff]]
+    opens = [["user", user]] + ([["owner", owner_eff]] if owner_eff != user else [])
     if R == 6:
         for who, p in (("user", user), ("owner", owner_eff)):
             q = C.saslprep(p)
